@@ -2,6 +2,7 @@ package sim
 
 import (
 	"fmt"
+	"math/big"
 	"net/url"
 	"strings"
 	"time"
@@ -157,7 +158,7 @@ func (sc *RevScenario) buildViews(obs *RevObs, co *CallObs) []*CertView {
 						sv.Alts = []string{ClNone}
 						sv.Desc += " [delivered bundle was obtained from " + base.Origin + ", not from this distribution point]"
 					} else if !sv.Vacuous {
-						sv.Alts = crlAlts(base, delta, cp.Freshest, hasCRLSign, w.HasST, w.ST, fr.TEnd)
+						sv.Alts = crlAlts(base, delta, cp.Serial, cp.Freshest, hasCRLSign, w.HasST, w.ST, fr.TEnd)
 						if sv.Alts == nil {
 							sv.Vacuous = true
 						}
@@ -216,7 +217,7 @@ func (sc *RevScenario) buildViews(obs *RevObs, co *CallObs) []*CertView {
 					sv.Alts = []string{ClNone}
 					break
 				}
-				sv.Alts = crlAlts(base, delta, cp.Freshest, hasCRLSign, w.HasST, w.ST, at)
+				sv.Alts = crlAlts(base, delta, cp.Serial, cp.Freshest, hasCRLSign, w.HasST, w.ST, at)
 				if sv.Alts == nil {
 					sv.Vacuous = true
 				}
@@ -269,8 +270,8 @@ func ocspAlts(w *World, cp *CertPlan, x *Exchange) []string {
 }
 
 // crlAlts turns a delivered bundle into alternatives.
-func crlAlts(base, delta *CRLSpec, certFreshest, hasCRLSign, hasST bool, st, now time.Time) []string {
-	cl := crlBundleClass(base, delta, certFreshest, hasCRLSign, hasST, st, now)
+func crlAlts(base, delta *CRLSpec, serial *big.Int, certFreshest, hasCRLSign, hasST bool, st, now time.Time) []string {
+	cl := crlBundleClass(base, delta, serial, certFreshest, hasCRLSign, hasST, st, now)
 	expand := func(c string) []string {
 		switch c {
 		case ClNotOK:
@@ -288,7 +289,7 @@ func crlAlts(base, delta *CRLSpec, certFreshest, hasCRLSign, hasST bool, st, now
 		return expand(cl)
 	}
 	// EITHER: boundary and/or tie. Recompute just before the boundary.
-	under := crlBundleClass(base, delta, certFreshest, hasCRLSign, hasST, st, now.Add(-time.Millisecond))
+	under := crlBundleClass(base, delta, serial, certFreshest, hasCRLSign, hasST, st, now.Add(-time.Millisecond))
 	bBoundary := crlListOK(base, hasCRLSign, now) == "either" || (delta != nil && crlListOK(delta, hasCRLSign, now) == "either")
 	alts := expand(under)
 	if alts == nil {
